@@ -175,6 +175,44 @@ func init() {
 		emit("docopy_errs_returned", has(dcnBody, `iferr!=nil{returnnewCopyError("Fetch",CopyErrorOriginSource,err)}`) &&
 			has(dcnBody, `iferr!=nil&&!errors.Is(err,errdef.ErrAlreadyExists){returnnewCopyError("Push",CopyErrorOriginDestination,err)}`),
 			"copy.go doCopyNode: an error of src.Fetch / of dst.Push other than ErrAlreadyExists is returned")
+		// ---- copy.go: prepareCopy (the wiring that makes Copy tag the root: Model/CopySpec.v root_tagger /
+		// root_refpush, TagP0/TagP1, the PushReference of a ReferencePusher root, TagX / PuX faults on it)
+		pc := findFunc(x.File("copy.go"), "", "prepareCopy")
+		var pcBody ast.Node
+		first := ""
+		if pc != nil && pc.Body != nil {
+			pcBody = pc.Body
+			if len(pc.Body.List) > 0 {
+				if is, ok := pc.Body.List[0].(*ast.IfStmt); ok {
+					first = c02norm(x, is.Init) + ";" + c02norm(x, is.Cond)
+				}
+			}
+		}
+		tagStmt := `iferr:=dst.Tag(ctx,root,dstRef);err!=nil{returnnewCopyError("Tag",CopyErrorOriginDestination,err)}`
+		emit("prepare_refpusher_branch", first == "refPusher,ok:=dst.(registry.ReferencePusher);ok",
+			"copy.go prepareCopy: the hooks are chosen by `refPusher, ok := dst.(registry.ReferencePusher)`")
+		emit("prepare_precopy_pushes_root_with_reference",
+			has(pcBody, "if!content.Equal(desc,root){returnnil}") &&
+				has(pcBody, "iferr:=copyCachedNodeWithReference(ctx,proxy,refPusher,desc,dstRef);err!=nil{returnerr}") &&
+				has(pcBody, "returnSkipNode"),
+			"copy.go prepareCopy (ReferencePusher): PreCopy pushes the ROOT with the reference (its error is returned), then PostCopy, then SkipNode; other nodes untouched")
+		emit("prepare_postcopy_tags_root",
+			has(pcBody, "ifcontent.Equal(desc,root){"+tagStmt+"}") && has(pcBody, "ifpostCopy!=nil{returnpostCopy(ctx,desc)}"),
+			"copy.go prepareCopy (Tagger): PostCopy tags the root first (a Tag error is returned), then calls the user's PostCopy if set")
+		nTag := 0
+		if pcBody != nil {
+			ast.Inspect(pcBody, func(n ast.Node) bool {
+				if st, ok := n.(ast.Stmt); ok && c02norm(x, st) == tagStmt {
+					nTag++
+				}
+				return true
+			})
+		}
+		emit("prepare_skipped_and_mounted_root_tagged",
+			nTag == 3 && has(pcBody, "returncopyCachedNodeWithReference(ctx,proxy,refPusher,desc,dstRef)") &&
+				has(pcBody, "ifonCopySkipped!=nil{iferr:=onCopySkipped(ctx,desc);err!=nil{returnerr}}") &&
+				has(pcBody, "ifonMounted!=nil{iferr:=onMounted(ctx,desc);err!=nil{returnerr}}"),
+			"copy.go prepareCopy: a skipped / mounted ROOT is tagged too (Tag, or PushReference for a ReferencePusher), after the user's callback, whose error is returned; exactly three dst.Tag sites")
 		// ---- internal/syncutil/limit.go
 		lim := x.File("internal/syncutil/limit.go")
 		gof := findFunc(lim, "", "Go")
